@@ -11,7 +11,8 @@ LEVEL = 'model_checking'
 RULE = (
     'Event-word datasets (truth-consistent, and perturbed: irregular falls, '
     'a pause inside a storm so that two rises share one storm, a missing '
-    'sample splitting the record into two stretches) x grid steps {1, 0.5, '
+    'sample splitting the record into two stretches, a residual rise at '
+    'the start of every dry spell) x grid steps {1, 0.5, '
     '0.3, 2.5} (1 and 0.5 make min/step and max/step integers) are run '
     'through the real load, classify, set-zeta-grid, rise, recession.  '
     'Oracle from tables only: every rising_interval is a paired rise and '
@@ -43,16 +44,17 @@ CONFIGS = [
     ('convex', 2.0, 1200, 0.3), ('concave', 0.5, 3600, 2.5),
     ('convex', 0.5, 600, 1.0), ('uniform', 2.0, 1200, 0.3),
 ]
-PERTURB = ['none', 'irregular-falls', 'pause-in-storm', 'gap']
+PERTURB = ['none', 'irregular-falls', 'pause-in-storm', 'gap',
+           'residual-rise']
 A0 = 16
 
 
 def BOUND(tier):
     return {
-        'quick': 'words (S D)^2 x 4 perturbations on 6 configurations; '
+        'quick': 'words (S D)^2 x 5 perturbations on 6 configurations; '
                  '(S D)^3 on a coarse grid; all step sequences up to length '
                  '4 over 6 workflow steps',
-        'thorough': 'words (S D)^m, m<=3, x 4 perturbations on 6 '
+        'thorough': 'words (S D)^m, m<=3, x 5 perturbations on 6 '
                     'configurations; (S D)^3 on a coarse grid; all step '
                     'sequences up to length 5',
     }[tier]
@@ -62,10 +64,10 @@ def word_space(pairs, config):
     size, decode_word = events.word_space_events(pairs)
 
     def decode(i):
-        return {'config': list(config), 'perturb': PERTURB[i % 4],
-                'word': decode_word(i // 4)}
+        return {'config': list(config), 'perturb': PERTURB[i % len(PERTURB)],
+                'word': decode_word(i // len(PERTURB))}
     return Space('workflow/(S D)^%d x perturbations/%s Sy=%g dt=%d step=%g'
-                 % ((pairs,) + tuple(config)), size * 4, decode)
+                 % ((pairs,) + tuple(config)), size * len(PERTURB), decode)
 
 
 def coarse_space(pairs):
@@ -186,6 +188,13 @@ def perturb(ds, how):
                 # samples first..first+k: flatten the middle increment
                 mid = first + 1
                 level[mid + 1] = level[mid] if mid + 1 < n else level[mid]
+    elif how == 'residual-rise':
+        # the water table keeps rising a little at the start of each dry
+        # spell (below the jump threshold): the interstorm interval's first
+        # sample is not its highest, as in much of the field data
+        for (first, _a, d) in ds['dries']:
+            if d >= 2 and first + 1 < n:
+                level[first + 1] = level[first] + 0.15625
     elif how == 'gap':
         if ds['dries']:
             first, _a, d = ds['dries'][-1]
